@@ -19,7 +19,7 @@ import (
 	"github.com/flamego/flamego/verifharness/internal/evid"
 )
 
-const rule = "injector level: case = 1..3 nested injectors and a history of 2..16 operations over {Map, MapTo, Set (re-registration included; values incl. typed nils), Invoke of a reflect.MakeFunc-built function with 0..4 parameters and 0..2 results over a 20-type universe (structs, pointers, named basics, channels, a named slice, map and func type whose values cannot be compared with ==, two distinct struct types that print alike, four interfaces - one of them sealed by an unexported method - and the empty interface, with the implements relation of the language); half of the resolutions with several parameters are provided for first, Invoke of one of six fast-invoker types and of its plain twin, Apply to a reflect.StructOf-built struct with tagged (the inject key alone, or between a json and an xml key) and untagged fields, behind 1..3 pointers, optionally preceded by Apply of the struct value itself}; registrations and invocations are interleaved. " +
+const rule = "injector level: case = 1..3 nested injectors and a history of 2..16 operations over {Map, MapTo, Set (re-registration included; values incl. typed nils), Invoke of a reflect.MakeFunc-built function with 0..4 parameters and 0..2 results over a 26-type universe (structs, pointers, named basics, channels, a named slice, map and func type whose values cannot be compared with ==, unnamed composite types - []interface{} whose elements are values of other types of the universe, []string, map[string]interface{}, func() int, [2]N1, *N1 -, two distinct struct types that print alike, four interfaces - one of them sealed by an unexported method - and the empty interface, with the implements relation of the language); half of the resolutions with several parameters are provided for first, Invoke of one of six fast-invoker types and of its plain twin, Apply to a reflect.StructOf-built struct with tagged (the inject key alone, or between a json and an xml key) and untagged fields, behind 1..3 pointers, optionally preceded by Apply of the struct value itself}; registrations and invocations are interleaved. " +
 	"Oracle: an own scope-chain resolver (exact in scope, else the set of values registered in that scope under keys implementing the interface - any member is legal -, else parent); unresolvable: the error names the type and the body ran 0 times; resolvable: the body ran once with legal arguments (pointer/channel identity, == otherwise) and the results come back DeepEqual; fast twin == plain twin. " +
 	"framework level (second check): request scope before application scope before an outer parent, request-scoped values visible to later handlers of that request only, re-registration of Context / http.ResponseWriter / *http.Request during a request seen identically by reflective handlers and by the built-in fast wrappers, unresolvable parameter -> panic naming the type and no later handler runs; results of func(Context) error and func() (int, string) handlers (as they are and behind named func types) reach the ReturnHandler by value. " +
 	"non-trivial = a case with a parameter resolved through an implementor or a parent scope, or a re-registration followed by a resolution, or an unresolvable parameter; distinct by case text"
